@@ -28,6 +28,10 @@ class Hooks:
     def untracked(self, key):
         return False
 
+    def aggregate_assign(self, rhs, state):
+        """`x = T{...}` for a record whose fields are tracked: the new state, or None when not applicable."""
+        return None
+
 
 def key_of(p):
     if not p:
@@ -159,6 +163,10 @@ def exec_stmt(stmt, st, hooks):
                     s2[k] = eff[2]
                 nxt.append(s2)
             elif eff[0] == "assign":
+                agg = hooks.aggregate_assign(eff[2], s)
+                if agg is not None:
+                    nxt.append(agg)
+                    continue
                 k = key_of(eff[3])
                 if k is None or hooks.untracked(k):
                     nxt.append(s)
